@@ -48,7 +48,12 @@ func vpC14_O1() {
 	pks := make([]*gabikeys.PublicKey, 2)
 	sks := make([]*gabikeys.PrivateKey, 2)
 	pks[0], sks[0] = vpKeys(0, 3, 1024, false)
-	pks[1], sks[1] = vpKeys(1, 3, 1024, false)
+	// the second key has the same length as the first or is a 2048-bit key (mixed key sizes)
+	len1 := 1024
+	if vpBool("key1large") {
+		len1 = 2048
+	}
+	pks[1], sks[1] = vpKeys(1, 3, len1, false)
 	userSecret, kssSecret := vpBigBits("usersecret", 255), vpBigBits("ksssecret", 255)
 	ctx, nonce := vpBigBits("ctx", 256), vpBigBits("nonce", 80)
 	issig := vpBool("issig")
@@ -85,6 +90,10 @@ func vpC14_O1() {
 	}
 	// Completeness holds except on a 2^-161 tail: both secret-key randomizers are drawn below
 	// 2^LmCommit and their sum plus c*(total secret) must stay below 2^(LmCommit+1).
+	// the server's randomizer is drawn for the smallest key involved (here always the 1024-bit first key):
+	// a longer one makes the joint response overflow that key's range almost always
+	vpAssert("the server's randomizer fits the smallest key involved", kssRandomizer.Sign() >= 0 && kssRandomizer.BitLen() <= int(gabikeys.DefaultSystemParameters[1024].LmCommit))
+	// (the bound of the smallest key involved applies)
 	lim := new(big.Int).Lsh(big.NewInt(1), gabikeys.DefaultSystemParameters[1024].LmCommit+1)
 	lim.Sub(lim, new(big.Int).Lsh(big.NewInt(1), 512))
 	vpAssume(new(big.Int).Add(kssRandomizer, randomizers["secretkey"]).Cmp(lim) < 0)
